@@ -37,7 +37,11 @@ SmallMsgs ==
              \cup { << ty, co, mid, tok, ol, pay >> :
                       ty \in 0..3, co \in {0, 69, 255}, mid \in {0, 65535},
                       tok \in { << >>, << 1, 2, 3, 4, 5, 6, 7, 8 >> },
-                      ol \in { << >>, << << 11, << 97 >> >> >> },
+                      ol \in { << >>, << << 11, << 97 >> >> >>,
+                                (* string values outside the Unicode normal forms: *)
+                                (* "e" + U+0301 (not NFC), U+212B, U+0340 (in none) *)
+                                << << 11, << 101, 204, 129 >> >>, << 15, << 226, 132, 171 >> >> >>,
+                                << << 3, << 205, 128 >> >>, << 35, << 195, 169 >> >> >> },
                       pay \in { << >>, << 0 >>, << 255, 255 >> } }) : Representable(m) }
 
 (* bytes offered in the current automaton state                              *)
